@@ -31,6 +31,7 @@ type c09Case struct {
 	Target  string `json:"target"`  // notebook | history
 	Entries int    `json:"entries"` // size of the starting file (-1 = missing)
 	Second  bool   `json:"second_write,omitempty"`
+	Symlink bool   `json:"symlinked_file,omitempty"`
 	Fault   string `json:"fault"` // crash | ENOSPC | EIO | fsize
 	Step    int    `json:"step"`
 	Byte    int    `json:"byte"`
@@ -75,6 +76,7 @@ func c09Setup(root string, cs c09Case) (op c09Op, old []byte, oldExists bool) {
 			entry = c09SecondEntry
 			oldExists = true
 		}
+		c09Link(cs, dir, path)
 		old, _ = os.ReadFile(path)
 		return c09Op{dir, path, func() error { err, _ := accSave(path, entry); return err }}, old, oldExists
 	}
@@ -99,6 +101,7 @@ func c09Setup(root string, cs c09Case) (op c09Op, old []byte, oldExists bool) {
 		q = "a second query"
 		oldExists = true
 	}
+	c09Link(cs, dir, path)
 	old, _ = os.ReadFile(path)
 	vtime.Advance(time.Second)
 	return c09Op{dir, path, func() error {
@@ -146,6 +149,22 @@ func c09Inspect(cs c09Case, path string, old, newC []byte, oldExists bool, opErr
 		}
 	}
 	return "", ""
+}
+
+// c09Link turns the file into a symbolic link to a file kept elsewhere (a notebook linked from a
+// dotfiles repository): the guarantee is about what the path holds, however it is laid out.
+func c09Link(cs c09Case, dir, path string) {
+	if !cs.Symlink {
+		return
+	}
+	if _, err := os.Stat(path); err != nil {
+		return
+	}
+	real := filepath.Join(dir, "dotfiles")
+	os.MkdirAll(real, 0o755)
+	target := filepath.Join(real, filepath.Base(path))
+	os.Rename(path, target)
+	os.Symlink(target, path)
 }
 
 type c09Point struct {
@@ -487,6 +506,9 @@ func c09Run(c *lib.Ctx) {
 			if n == 1 || n == 5 {
 				jobs = append(jobs, job{base: c09Case{Target: t, Entries: n, Second: true}})
 			}
+			if n == 5 {
+				jobs = append(jobs, job{base: c09Case{Target: t, Entries: n, Symlink: true}})
+			}
 		}
 	}
 	cliSizes := []int{1, 5}
@@ -536,7 +558,7 @@ func init() {
 	lib.Subs["fsize"] = c09FsizeChild
 	lib.Register(&lib.Check{
 		ID: "C09", Level: "fault_enumeration",
-		Rule:      "exhaustive crash-point and error-point enumeration at the os seam (vos) on the real write paths: for the notebook save (saveToPersonalDatabase) and the history update made by every search (Load, AddEntry, Save), starting from a missing file and from files of 0, 1, 5 (quick) and 40 (thorough) entries, and as the second write of a two-write history: a dry run records the mutating file-system steps (mkdir, create/truncate, every write, sync, chmod, close, rename, remove); then a crash is injected at EVERY step boundary and at EVERY byte offset of every write (later clean-up calls are dropped, as in a killed process), and ENOSPC and EIO are injected at the same positions; after each, the file as a fresh process finds it must equal the complete previous or the complete new content, a write that did not take effect must have returned an error, and the earlier entries must load. Two-fault histories: the first write is killed at EVERY crash point, then a fresh process completes a second, shorter write; the file must hold exactly that write's content (no reuse of leftovers). Process twin: the real `wtf save`, `wtf save-pipeline` and `wtf <query>` re-executed under RLIMIT_FSIZE = k for EVERY k in 0..len(new content), same oracle on the file plus 'saved successfully' only if saved. evaluations = injected runs; non-trivial = runs in which the fault fired",
+		Rule:      "exhaustive crash-point and error-point enumeration at the os seam (vos) on the real write paths: for the notebook save (saveToPersonalDatabase) and the history update made by every search (Load, AddEntry, Save), starting from a missing file and from files of 0, 1, 5 (quick) and 40 (thorough) entries, as the second write of a two-write history, and with the file being a symbolic link to a file kept elsewhere: a dry run records the mutating file-system steps (mkdir, create/truncate, every write, sync, chmod, close, rename, remove); then a crash is injected at EVERY step boundary and at EVERY byte offset of every write (later clean-up calls are dropped, as in a killed process), and ENOSPC and EIO are injected at the same positions; after each, the file as a fresh process finds it must equal the complete previous or the complete new content, a write that did not take effect must have returned an error, and the earlier entries must load. Two-fault histories: the first write is killed at EVERY crash point, then a fresh process completes a second, shorter write; the file must hold exactly that write's content (no reuse of leftovers). Process twin: the real `wtf save`, `wtf save-pipeline` and `wtf <query>` re-executed under RLIMIT_FSIZE = k for EVERY k in 0..len(new content), same oracle on the file plus 'saved successfully' only if saved. evaluations = injected runs; non-trivial = runs in which the fault fired",
 		Assume:    []string{"file-system calls of the write path go through os.* functions that the build overlay routes to vos; a crash preserves the bytes already written (prefix model), no reordering of un-synced data", "history content is made deterministic with the virtual clock"},
 		QuickSecs: 200, ThorSecs: 1500,
 		Run: c09Run,
@@ -554,7 +576,7 @@ func init() {
 			if cs.Fault == "crash-then-write" {
 				return c09CrashThenWrite(c, cs.Target, &cs)
 			}
-			return c09Enumerate(c, c09Case{Target: cs.Target, Entries: cs.Entries, Second: cs.Second}, &cs)
+			return c09Enumerate(c, c09Case{Target: cs.Target, Entries: cs.Entries, Second: cs.Second, Symlink: cs.Symlink}, &cs)
 		},
 		Finish: func(m *lib.Report, tier string) string {
 			if !m.Exhaustive {
